@@ -580,7 +580,11 @@ func (r *runningStep) Close() error {
 	r.cancel()
 	r.wg.Wait()
 	r.logger.Debugf("Closing inputData channel in foreach step provider")
+	// ProvideStageInput sends on this channel while holding the lock; closing it under the same
+	// lock makes sure a send that passed the closed check is over before the channel is closed.
+	r.lock.Lock()
 	close(r.executeInput)
+	r.lock.Unlock()
 	return nil
 }
 
